@@ -589,8 +589,8 @@ Definition resolve (codec : bool) (es : list cevent) (r : result) : obs :=
           match first_headers es with
           | Some (hs, _) =>
               match dict_get K_CT hs with
-              | None => OGrpc (nth 0 content_type_statuses (-1)) MClient DAbsent
-              | Some _ => OGrpc (nth 1 content_type_statuses (-1)) MClient DAbsent
+              | None => OGrpc (content_type_status) MClient DAbsent
+              | Some _ => OGrpc (content_type_status) MClient DAbsent
               end
           | None => OInternal
           end
@@ -598,12 +598,12 @@ Definition resolve (codec : bool) (es : list cevent) (r : result) : obs :=
           match block_of b es with
           | Some (hs, _) =>
               match dict_get K_GS hs with
-              | None => OGrpc (nth 0 grpc_status_statuses (-1)) MClient DAbsent
-              | Some _ => OGrpc (nth 1 grpc_status_statuses (-1)) MClient DAbsent
+              | None => OGrpc (grpc_status_error_status) MClient DAbsent
+              | Some _ => OGrpc (grpc_status_error_status) MClient DAbsent
               end
           | None =>
               match b with
-              | BTrl => OGrpc (nth 0 grpc_status_statuses (-1)) MClient DAbsent   (* no trailers at all *)
+              | BTrl => OGrpc (grpc_status_error_status) MClient DAbsent   (* no trailers at all *)
               | BHdr => OInternal
               end
           end
